@@ -1406,6 +1406,19 @@ valid_op(Op) :-
 op_(Priority, OpSpec, Op) :-
     '$op'(Priority, OpSpec, Op).
 
+% an infix and a postfix operator of the same name cannot coexist (8.14.3.3 l);
+% checked for every element of a list of names before the first one is declared.
+op_clash_check(Priority, OpSpec, Op) :-
+    (  Priority > 0,
+       (  lists:member(OpSpec, [xfx, xfy, yfx]) -> Others = [xf, yf]
+       ;  lists:member(OpSpec, [xf, yf]) -> Others = [xfx, xfy, yfx]
+       ),
+       lists:member(Other, Others),
+       current_op(_, Other, Op) ->
+       throw(error(permission_error(create, operator, Op), op/3))
+    ;  true
+    ).
+
 % the restrictions on '|' also apply when it is an element of a list of names.
 op_bar_check(Priority, OpSpec, Op) :-
     (  Op == '|',
@@ -1441,6 +1454,7 @@ op(Priority, OpSpec, Op) :-
        '$op'(Priority, OpSpec, Op)
     ;  list_of_op_atoms(Op), op_priority(Priority), op_specifier(OpSpec) ->
        lists:maplist(builtins:op_bar_check(Priority, OpSpec), Op),
+       lists:maplist(builtins:op_clash_check(Priority, OpSpec), Op),
        lists:maplist(builtins:op_(Priority, OpSpec), Op),
        !
     ;  throw(error(type_error(list, Op), op/3)) % 8.14.3.3 f)
